@@ -6,6 +6,13 @@ mod varint;
 pub use frame::StreamId;
 pub use message::{AddressType, MessageType};
 pub use protocol::{Control, Wire, WireReader, WireSession, WireWriter};
+
+/// Re-exports of the private framing layer for the external verification harness.
+#[cfg(feature = "verif")]
+pub mod verif {
+    pub use super::frame::{Control, Frame, FrameData, StreamId, StreamKind, Version};
+    pub use super::varint::{payload as varint_payload, BoundsExceeded, VarInt};
+}
 use radicle::node::UserAgent;
 
 use std::collections::BTreeMap;
